@@ -201,6 +201,12 @@ func checkC06(w *World, r *Report) {
 		r.Undecided("X-5", "ledger-isolation", "the ledger's overlay semantics could not be evaluated")
 	}
 
+	// X-7: the readers of the committed tree that block execution iterates with
+	// consult no overlay: the mempool overlay is written by CheckTx, so a tree
+	// iterator filtered by it lets unconfirmed transactions steer a block (C18 L-2)
+	if r.importTreeReadOnly(w, "X-7") < 2 {
+		r.Undecided("X-7", "tree-iterators", "the committed-tree readers of the ledger package were not found")
+	}
 	r.Floor("X-1a", 20, "consensus-overlay call arms on live ledgers")
 	r.Floor("X-1b", 12, "mempool-overlay call arms on live ledgers")
 	r.Floor("X-1c", 15, "exec-flag arguments")
